@@ -29,6 +29,14 @@ QUICK = [
     ('file', 's1.xsl', 's1.xml'),
     ('compile+parse+stream+terminate+stream', 'term.xsl', 's1.xml'),
     ('badxml+stream+ctor', 'params.xsl', 'bad.xml'),
+    # no output method and an html root: the XML formatter is replaced by an HTML one on the same stream (the encoding is set a second time)
+    ('stream', 'autohtml.xsl', 's1.xml'),
+    ('callback+stream', 'autohtml.xsl', 's1.xml'),
+    # a transcoder, CDATA sections, DOCTYPE, indenting; UTF-16; extension namespaces with two prefixes for one URI; every lazily built facility
+    ('stream', 'enc.xsl', 's1.xml'),
+    ('file', 'utf16.xsl', 's1.xml'),
+    ('compile+stream', 'ext.xsl', 's1.xml'),
+    ('prebuilt', 'lazy.xsl', 's1.xml'),
 ]
 
 
@@ -45,7 +53,7 @@ def scenarios(tier, seed):
         import random
         r = random.Random(seed)
         steps = ['ctor', 'compile', 'parse', 'parsex', 'stream', 'prebuilt', 'prebuiltx', 'callback', 'dom', 'builder', 'params', 'file']
-        sheets = ['s1.xsl', 'params.xsl', 'html.xsl', 'text.xsl']
+        sheets = ['s1.xsl', 'params.xsl', 'html.xsl', 'text.xsl', 'autohtml.xsl', 'enc.xsl', 'utf16.xsl', 'ext.xsl', 'lazy.xsl']
         for i in range(60):
             seq = '+'.join(r.choice(steps) for _ in range(r.randrange(2, 6)))
             out.append((seq, r.choice(sheets), 's1.xml', r.choice(('bad_alloc', 'oom')), 'plain'))
